@@ -178,6 +178,7 @@ impl Exec {
         }
         let Some(args) = args else {
             ev.insert("out".into(), json!("noargs"));
+            ev.insert("outk".into(), json!("noargs"));
             return self.emit(ev);
         };
         {
@@ -222,7 +223,9 @@ impl Exec {
             }
             ev.insert("poisoned".into(), json!(true));
         }
-        ev.insert("out".into(), json!(out));
+        let outk = if out == "ok" { "ok" } else if out.starts_with("err:") { "err" } else { "panic" };
+        ev.insert("out".into(), json!(out.replace('\n', " ")));
+        ev.insert("outk".into(), json!(outk));
         ev.insert("ok".into(), json!(out == "ok"));
         ev.insert("tb".into(), json!(ms(tb, epoch)));
         ev.insert("ta".into(), json!(ms(ta, epoch)));
@@ -298,6 +301,7 @@ impl Exec {
         let mut ev = Map::new();
         ev.insert("e".into(), json!(if restore { "restore" } else { "save" }));
         ev.insert("id".into(), json!(id));
+        ev.insert("now".into(), json!(ms(now, self.epoch)));
         if restore {
             // full table contents so that the trace stays self-contained
             let mut tabs = Map::new();
@@ -333,31 +337,29 @@ impl Exec {
 }
 
 fn direct_calls(line: &[u8]) -> Value {
+    // status codes: 0 = None, 1 = Some, 2 = panicked, 3 = not called
     let Ok(s) = std::str::from_utf8(line) else {
-        return json!({"utf8": false});
+        return json!({"utf8": false, "gms": 3, "gm": [], "gdf": -1, "gis": 3, "gi": 0});
     };
     let gm = catch_unwind(AssertUnwindSafe(|| get_message(s)));
     match gm {
-        Err(_) => json!({"utf8": true, "gm": "panic"}),
-        Ok(None) => json!({"utf8": true, "gm": []}),
+        Err(_) => json!({"utf8": true, "gms": 2, "gm": [], "gdf": -1, "gis": 3, "gi": 0}),
+        Ok(None) => json!({"utf8": true, "gms": 0, "gm": [], "gdf": -1, "gis": 3, "gi": 0}),
         Ok(Some(m)) => {
             let df = catch_unwind(AssertUnwindSafe(|| get_downlink_format(&m)));
-            let (dfv, icao) = match df {
+            let (dfv, gis, gi) = match df {
                 Ok(Some(df)) => {
                     let ic = catch_unwind(AssertUnwindSafe(|| get_icao(&m, df)));
-                    (
-                        json!([df]),
-                        match ic {
-                            Ok(Some(v)) => json!([v]),
-                            Ok(None) => json!([]),
-                            Err(_) => json!("panic"),
-                        },
-                    )
+                    match ic {
+                        Ok(Some(v)) => (df as i64, 1, v),
+                        Ok(None) => (df as i64, 0, 0),
+                        Err(_) => (df as i64, 2, 0),
+                    }
                 }
-                Ok(None) => (json!([]), json!([])),
-                Err(_) => (json!("panic"), json!([])),
+                Ok(None) => (-1, 3, 0),
+                Err(_) => (-2, 3, 0),
             };
-            json!({"utf8": true, "gm": [m], "gdf": dfv, "gi": icao})
+            json!({"utf8": true, "gms": 1, "gm": m, "gdf": dfv, "gis": gis, "gi": gi})
         }
     }
 }
